@@ -381,6 +381,21 @@ def run(p, report, tier):
     ents = [(ci, f) for (ci, f) in c13_fit.fit_entities(p) if ci in clfs]
     c13_fit.check_fit_recomputes(p, report, ents, "R19.10")
     c13_fit.check_store_on_every_path(p, report, ents, rule="R19.10")
+    # ---------------- round 6
+    report.rule("R19.13", "the emulated partial_fit grows the stored training triple by a dtype-PROMOTING concatenation "
+                "(np.concatenate / append / hstack / r_), directly or in a helper whose every return is one: a buffer "
+                "pre-allocated with the dtype of the OLD array (`empty_like(old)`) truncates added fractional weights / "
+                "longer string labels when they are stored into it, and the retrained reference sees other data", floor=3)
+    check_promoting_growth(p, report)
+    report.rule("R19.15", "the stored training triple (idx_, y_, sample_weight_ and their base_* twins) is only ever replaced "
+                "as a whole, never written element-wise: fit keeps the arrays it is given without copying them, so a "
+                "subscript store would relabel the caller's own label / weight arrays (and the constructor's) in place", floor=2)
+    check_triple_whole_stores(p, report)
+    report.rule("R19.14", "the precomputed-kernel path and the plain path of ParzenWindowClassifier.predict_freq differ only "
+                "in how the kernel block K is obtained: no other local that is live after the split is (re)bound in one arm "
+                "only (the wrapper's speed-up replaces exactly K; an arm that also filters the training samples changes the "
+                "neighbourhood on one path only)", floor=1)
+    check_kernel_arms_agree(p, report)
     report.assumptions += ["equality with a retrained reference classifier is not decided"]
 
 
@@ -516,3 +531,166 @@ def check_unique_selector(p, report, rule="R19.8"):
                                "the selector is computed from positions (len(self.idx_)) instead of the index values: it "
                                "drops whatever entry sits at the position numbered like the new sample")
     return n
+
+
+PROMOTING = {"concatenate", "append", "hstack", "vstack", "r_", "column_stack", "stack"}
+
+
+def _promoting(p, ci, f, e, depth=0):
+    if isinstance(e, ast.Constant) and e.value is None:
+        return True
+    if isinstance(e, ast.Subscript) and isinstance(e.value, ast.Attribute) and e.value.attr == "r_":
+        return True
+    if not isinstance(e, ast.Call):
+        return False
+    fn = (c01.callname(e) or "").split(".")[-1]
+    if fn in PROMOTING:
+        return True
+    if depth < 2 and isinstance(e.func, ast.Attribute) and isinstance(e.func.value, ast.Name) \
+            and e.func.value.id in ("self", ci.name, "cls"):
+        h = p.find_method(ci, e.func.attr)
+        if h is None:
+            return False
+        rets = [r for r in ast.walk(h.node) if isinstance(r, ast.Return) and r.value is not None]
+
+        def ok_ret(v):
+            if _promoting(p, ci, h, v, depth + 1):
+                return True
+            if isinstance(v, ast.Name):
+                defs = [d for d in ast.walk(h.node) if isinstance(d, ast.Assign)
+                        and any(isinstance(t, ast.Name) and t.id == v.id for t in d.targets)]
+                stores = [d for d in ast.walk(h.node) if isinstance(d, (ast.Assign, ast.AugAssign))
+                          and any(isinstance(t, ast.Subscript) and base_name(t) == v.id
+                                  for t in (d.targets if isinstance(d, ast.Assign) else [d.target]))]
+                return bool(defs) and not stores and all(_promoting(p, ci, h, d.value, depth + 1) for d in defs)
+            return False
+        return bool(rets) and all(ok_ret(r.value) for r in rets)
+    return False
+
+
+def check_promoting_growth(p, report):
+    ci = p.get_class("IndexClassifierWrapper")
+    f = ci.methods.get("partial_fit") if ci else None
+    if f is None:
+        raise AnalysisError("IndexClassifierWrapper.partial_fit vanished")
+    triple = ("idx_", "y_", "sample_weight_")
+    params = set(f.all_param_names()) - {"self"}
+    # names derived from the added data
+    added = set(params)
+    for _ in range(3):
+        for n in ast.walk(f.node):
+            if isinstance(n, ast.Assign) and names_in(n.value) & added:
+                for t in n.targets:
+                    for x in (t.elts if isinstance(t, (ast.Tuple, ast.List)) else [t]):
+                        if isinstance(x, ast.Name):
+                            added.add(x.id)
+    n_ = 0
+    for st in ast.walk(f.node):
+        if not (isinstance(st, ast.Assign) and len(st.targets) == 1 and isinstance(st.targets[0], ast.Attribute)
+                and isinstance(st.targets[0].value, ast.Name) and st.targets[0].value.id == "self"
+                and st.targets[0].attr in triple):
+            continue
+        a = st.targets[0].attr
+        reads_old = any(isinstance(x, ast.Attribute) and isinstance(x.value, ast.Name) and x.value.id == "self" and x.attr == a
+                        for x in ast.walk(st.value))
+        if not (reads_old and names_in(st.value) & added):
+            continue   # a restore / a plain store, not a growth
+        n_ += 1
+        ok = _promoting(p, ci, f, st.value)
+        report.add("R19.13", f.qual, f"growth `{norm_stmt(st, 60)}` promotes the dtype", f"{f.file}:{st.lineno}", ok,
+                   detail="np.concatenate (or a helper that returns one)" if ok else
+                   f"`{ast.unparse(st.value)[:70]}` is not a concatenation: a result buffer with the dtype of the stored array "
+                   f"casts the added entries (0.5 -> 0 for integer weights)")
+    if n_ == 0:
+        raise AnalysisError("no growth statement of the training triple found in IndexClassifierWrapper.partial_fit")
+
+
+def check_kernel_arms_agree(p, report):
+    ci = p.get_class("ParzenWindowClassifier")
+    f = ci.methods.get("predict_freq") if ci else None
+    if f is None:
+        raise AnalysisError("ParzenWindowClassifier.predict_freq vanished")
+    tree = FuncTree(f.node)
+    splits = [n for n in ast.walk(f.node) if isinstance(n, ast.If) and "precomputed" in ast.unparse(n.test)
+              and "metric" in ast.unparse(n.test)]
+    if not splits:
+        raise AnalysisError("precomputed / plain split of predict_freq not found")
+    for sp in splits:
+        def bound(stmts):
+            out = set()
+            for s_ in stmts:
+                for n in ast.walk(s_):
+                    if isinstance(n, ast.Name) and isinstance(n.ctx, ast.Store):
+                        out.add(n.id)
+                    if isinstance(n, (ast.Assign, ast.AugAssign)):
+                        for t in (n.targets if isinstance(n, ast.Assign) else [n.target]):
+                            if isinstance(t, ast.Attribute) and isinstance(t.value, ast.Name) and t.value.id == "self":
+                                out.add("self." + t.attr)
+            return out
+        a, b = bound(sp.body), bound(sp.orelse)
+        one_sided = (a ^ b)
+        # live after the split: read in a statement that follows the split in an enclosing block
+        later = set()
+        blk = tree.block_of.get(sp)
+        cur = sp
+        while blk is not None:
+            owner, field, idx = blk
+            for s_ in getattr(owner, field)[idx + 1:]:
+                later |= {n.id for n in ast.walk(s_) if isinstance(n, ast.Name) and isinstance(n.ctx, ast.Load)}
+                later |= {"self." + n.attr for n in ast.walk(s_) if isinstance(n, ast.Attribute) and isinstance(n.ctx, ast.Load)
+                          and isinstance(n.value, ast.Name) and n.value.id == "self"}
+            cur = owner
+            blk = tree.block_of.get(cur) if isinstance(cur, ast.stmt) else None
+        # the kernel block itself: bound in both arms by construction; one-sided names that are dead afterwards are local
+        bad = sorted(x for x in one_sided if x in later)
+        report.add("R19.14", f.qual, f"arms of `{norm_stmt(sp, 50)}` agree on everything but the kernel block",
+                   f"{f.file}:{sp.lineno}", not bad,
+                   detail=f"bound in both arms: {sorted(a & b)}" if not bad else
+                   f"`{bad[0]}` is (re)bound in one arm only and read afterwards: the frequency estimate is then computed from "
+                   f"different training rows / votes depending on whether the kernel was precomputed - the speed-up of the index "
+                   f"wrapper (which precomputes K) no longer predicts what the plain classifier predicts")
+
+
+def check_triple_whole_stores(p, report):
+    ci = p.get_class("IndexClassifierWrapper")
+    if ci is None:
+        raise AnalysisError("IndexClassifierWrapper vanished")
+    triple = {"idx_", "y_", "sample_weight_", "base_idx_", "base_y_", "base_sample_weight_"}
+    INPLACE = {"sort", "fill", "put", "resize", "itemset", "partition"}
+    for mn, f in sorted(ci.methods.items()):
+        # local aliases of the triple (`y = self.y_`)
+        alias = {}
+        for n in ast.walk(f.node):
+            if isinstance(n, ast.Assign) and isinstance(n.value, ast.Attribute) and isinstance(n.value.value, ast.Name) \
+                    and n.value.value.id == "self" and n.value.attr in triple:
+                for t in n.targets:
+                    if isinstance(t, ast.Name):
+                        alias[t.id] = n.value.attr
+        whole = 0
+        bad = None
+        for n in ast.walk(f.node):
+            tgs = n.targets if isinstance(n, ast.Assign) else ([n.target] if isinstance(n, ast.AugAssign) else [])
+            for t in tgs:
+                if isinstance(t, ast.Attribute) and isinstance(t.value, ast.Name) and t.value.id == "self" and t.attr in triple:
+                    if isinstance(n, ast.AugAssign):
+                        bad = bad or (n, t.attr)
+                    else:
+                        whole += 1
+                b = t
+                sub = False
+                while isinstance(b, ast.Subscript):
+                    b = b.value
+                    sub = True
+                if sub and isinstance(b, ast.Attribute) and isinstance(b.value, ast.Name) and b.value.id == "self" and b.attr in triple:
+                    bad = bad or (n, b.attr)
+                if (sub or isinstance(n, ast.AugAssign)) and isinstance(b, ast.Name) and b.id in alias:
+                    bad = bad or (n, alias[b.id])
+            if isinstance(n, ast.Call) and isinstance(n.func, ast.Attribute) and n.func.attr in INPLACE:
+                b = n.func.value
+                if isinstance(b, ast.Attribute) and isinstance(b.value, ast.Name) and b.value.id == "self" and b.attr in triple:
+                    bad = bad or (n, b.attr)
+        if whole or bad:
+            report.add("R19.15", f.qual, "training triple replaced as a whole only", f"{f.file}:{(bad[0] if bad else f.node).lineno}",
+                       bad is None, detail=f"{whole} whole-attribute store(s)" if bad is None else
+                       f"`{norm_stmt(bad[0], 60)}` writes into self.{bad[1]} element-wise: the array may be the very array the "
+                       f"caller passed to fit / the constructor (stored without a copy), which is thereby relabelled")
